@@ -53,6 +53,11 @@ ExprSeq ==
         \* assignment under several context nodes: both sides are relative to each node
         EPipe(EPipe(EPath(A), ESplat), EAssign(EPath(A), EPath(B))), EPipe(ESplat, EAssign(EPath(A), EPath(A))), EPipe(EPipe(EPath(A), ESplat), EAssign(EPath(B), ENul("LENGTH"))),
         ECollect(EPipe(EPipe(EPath(A), ESplat), EPipe(EAssign(EPath(C), EPath(A)), EPath(C)))), EPipe(EPipe(EPath(A), ESplat), EBin("ADD_ASSIGN", EPath(A), EPath(A))) >>
+  \* with(p; u): the path is created like the left side of an assignment; `with(p; . = v)` is `p = v`
+  \o FlatMap(LAMBDA p : [i \in 1..4 |-> EWith(p, EAssign(ESelf, Vals1[i]))], Paths1)
+  \o FlatMap(LAMBDA p : [i \in 1..3 |-> EWith(p, EUpdate(ESelf, Upd1[i]))], Paths1)
+  \o [i \in DOMAIN Paths1 |-> EWith(Paths1[i], EBin("ADD_ASSIGN", ESelf, ELit(IntV(1))))]
+  \o [i \in DOMAIN Paths1 |-> EPipe(EWith(Paths1[i], EAssign(EPath(C), ELit(IntV(7)))), Paths1[i])]
   \* setpath / delpaths: the path as a value; the VALUE of setpath reads paths that may be missing (it must not create them)
   \o FlatMap(LAMBDA pv : [i \in DOMAIN SetVals |-> EBin("SET_PATH", pv, SetVals[i])], PathVals)
   \o FlatMap(LAMBDA pv : [i \in DOMAIN SetVals |-> EPipe(EBin("SET_PATH", pv, SetVals[i]), EBin("SET_PATH", pv, ELit(IntV(7))))], PathVals)
@@ -84,6 +89,11 @@ PutPut == phase = 1 => \A pi \in PlainIdx :
    LET r2 == Run(EPipe(EAssign(Paths1[pi], Vals1[1]), EAssign(Paths1[pi], Vals1[2])), D)
        r1 == Run(EAssign(Paths1[pi], Vals1[2]), D) IN
    r1.st # "ok" \/ r2.st # "ok" \/ r1.doc = r2.doc
+\* with(p; . = v) is p = v
+WithLaw == phase = 1 => \A pi \in DOMAIN Paths1 : \A vi \in Lits :
+   LET a == Run(EAssign(Paths1[pi], Vals1[vi]), D)
+       w == Run(EWith(Paths1[pi], EAssign(ESelf, Vals1[vi])), D) IN
+   a.st # "ok" \/ w.st # "ok" \/ a.doc = w.doc
 \* frame: every path that is neither a prefix nor an extension of an assigned position reads the same before and after
 Frame == phase = 1 => \A pi \in DOMAIN Paths1 :
    LET L == Run(Paths1[pi], D)                                              \* the positions the path addresses (after auto-creation)
